@@ -28,8 +28,23 @@ fn main() {
                 writeln!(out, "{v}").unwrap();
             }
         }
+        // src <manifest.json> <font> [fontc options...] : manifest-based oracles (C03 C04 C06 C08)
+        "src" => {
+            let man: serde_json::Value = serde_json::from_slice(&std::fs::read(&args[2]).unwrap()).unwrap();
+            let data = std::fs::read(&args[3]).unwrap();
+            let opts: Vec<String> = args[4..].to_vec();
+            let r = std::panic::catch_unwind(|| eval::src::to_json(&eval::src::check(&data, &man, &opts)));
+            let v = match r {
+                Ok(mut v) => {
+                    v["font"] = json!(args[3]);
+                    v
+                }
+                Err(_) => json!({"font": args[3], "oracle_panicked": true}),
+            };
+            writeln!(out, "{v}").unwrap();
+        }
         _ => {
-            eprintln!("usage: voracle c05 <font>...");
+            eprintln!("usage: voracle c05 <font>... | src <manifest> <font> [opts]");
             std::process::exit(2);
         }
     }
